@@ -409,7 +409,9 @@ func (w *World) doTruncate(n *Node, res *StepResult) {
 		}
 	}
 	// (1) nothing lost, content retrievable and identical
-	for h, v := range s0.confirmed() {
+	conf0 := s0.confirmed()
+	for _, h := range sortedHashes(conf0) { // fixed order: the reads below pass preemption points
+		v := conf0[h]
 		sv := s1.get(h)
 		if sv == nil {
 			w.violate("C07", "lost", "confirmed-vertex-lost-by-truncation", n.Idx, "vertex %s", hx(h))
